@@ -12,7 +12,7 @@ ALPHA = "abAB1_"
 DICT = ["HTTPServer", "Ab12Cd", "V2", "XmlHttpRequest", "A", "Foo_Bar", "snake_id", "SHOUT", "TLS13", "Item9", "IOError",
         "Xml2Json", "ABc", "X1Y2", "__private", "Trailing_", "Dou__ble", "MiXeD", "ab1CD", "Z", "Ipv4Addr", "HTTP2",
         "Utf8Str", "B2B", "OAuth2Token", "Sha256Sum", "PascalCase", "aBC", "SCREAMING_SNAKE",
-        "\u00c5ngstr\u00f6m", "Cr\u00e8me", "\u00c9clair", "\u00c0B", "Z\u00fcrich2", "caf\u00e9Au", "\u00d1and\u00da"]
+        "\u00c5ngstr\u00f6m", "Cr\u00e8me", "\u00c9clair", "\u00c0B", "Z\u00fcrich2", "caf\u00e9Au", "\u00d1and\u00da", "type", "fn", "match", "__", "_A_", "a__b"]
 
 
 def identifiers(L):
@@ -31,7 +31,7 @@ def identifiers(L):
 def conv_module(k, style, ids):
     src = SG.HEADER
     src += "#[derive(strum::VariantNames)]\n#[strum(serialize_all = \"%s\")]\npub enum S%d {\n" % (style, k)
-    src += "".join("    %s,\n" % i for i in ids)
+    src += "".join("    %s,\n" % D.rs_ident(i) for i in ids)       # keywords are written r#type; the identifier is the word itself
     src += "}\n"
     src += "static IDS: [&str; %d] = [%s];\n" % (len(ids), ", ".join('"%s"' % i for i in ids))
     src += ("pub fn run(o: &mut Out, ins: &std::collections::HashMap<u32, Vec<String>>, seed: u64) {\n"
@@ -80,7 +80,7 @@ def run(tier, seed, rep):
         # (b) the renamed identifier is used identically by every derive; explicit names are never re-cased
         cands = []
         for st in STYLES + ALIASES:
-            for chunk in (DICT[:15], DICT[15:]):
+            for chunk in (DICT[:15], DICT[15:-6], DICT[-6:]):
                 vs = [variant(i, rng.choice(["unit", "unit", "tuple", "named"])) for i in chunk]
                 for v in vs:
                     if v["kind"] != "unit":
